@@ -31,15 +31,15 @@ void vp_c18_owner_str(char *out, uint32_t code) { ASSUME(code == 'o' || code == 
 void vp_c18_key_str(char *out, uint32_t code) { ASSUME(code == 'X' || (code >= 'A' && code <= 'D'));
   *(QAD**)out = code == 'A' ? c18_uk[0] : code == 'B' ? c18_uk[1] : code == 'C' ? c18_uk[2] : code == 'D' ? c18_uk[3] : c18_uk[4]; }
 /* code of a 1-unit string / 1-byte array (0 for anything else) */
-/* only MODEL blocks carry a code: a model block that is not exactly one unit long has code 0 (it equals no universe element);
-   anything else (static literal, foreign block) is C18_UNKNOWN: callers fall back to the generic comparison or flag a model limit */
+/* code of a string: 0 = empty, the unit of a 1-unit MODEL block, C18_UNKNOWN for anything else (longer strings, static literals):
+   callers flag a model limit (the containers / the storage of this harness only ever see universe elements or empty strings) */
 #define C18_UNKNOWN 0xFFFFFFFFu
 /* cbmc's value sets are per object, not per field: a pointer loaded from a slot that holds strings may, as far as symex knows,
    also denote a byte-array block stored elsewhere in the same object (and vice versa).  Such alternatives are infeasible; they get
    code 0 here instead of a generic comparison over a mistyped block, and an assertion makes sure they really are infeasible. */
-static uint32_t c18_code16(QAD *d) { if (d->f1 == 0) return 0; if (d->f3 == QS_OFF) return d->f1 == 1 ? SD(d)[0] : 0;
+static uint32_t c18_code16(QAD *d) { if (d->f1 == 0) return 0; if (d->f3 == QS_OFF) return d->f1 == 1 ? SD(d)[0] : C18_UNKNOWN;
   if (d->f3 == QB_OFF) { ASSERT(0, "C18: byte-array block where a string is expected"); return 0; } return C18_UNKNOWN; }
-static uint32_t c18_code8(QAD *d) { if (d->f1 == 0) return 0; if (d->f3 == QB_OFF) return d->f1 == 1 ? BD(d)[0] : 0;
+static uint32_t c18_code8(QAD *d) { if (d->f1 == 0) return 0; if (d->f3 == QB_OFF) return d->f1 == 1 ? BD(d)[0] : C18_UNKNOWN;
   if (d->f3 == QS_OFF) { ASSERT(0, "C18: string block where a byte array is expected"); return 0; } return C18_UNKNOWN; }
 uint32_t vp_c18_jid_code(char *s) { return c18_code16(*(QAD**)s); }
 uint32_t vp_c18_key_code(char *s) { return c18_code8(*(QAD**)s); }
